@@ -31,6 +31,13 @@ CLAIMED = {
              "batch 1-2; refrac_lock on/off; adaptation on/off/None+train/None+eval. Spiking neurons are followed through the refractory window with "
              "arbitrary inputs. Functional kernels additionally with symbolic hyper-parameters.",
         ref="6/C03"),
+    "C04": dict(
+        text="All four synapse classes: (a) T<=4 (6 thorough) steps from a cleared (also dirty-then-cleared) synapse with symbolic input spikes and injected "
+             "currents against the documented kernel sums; spike record == input; grid reads of the past. (b) one step from an ARBITRARY planted "
+             "history at every pointer position, then current_at/spike_at with a SYMBOLIC per-element selector in [-1, delay+2dt]: history value on the grid, "
+             "the synapse's interpolation between grid points, overbound value / limit value (None) beyond the delay. dt in {1.0,(0.5),1.3}, delay in "
+             "{0,(dt),2dt,2.5dt}, interp modes, tolerances {0,1e-3}, three overbound settings, in-place and out-of-place.",
+        ref="6/C04"),
 }
 
 REASONS = {}
